@@ -796,8 +796,10 @@ def check_sentinel_default(ctx, prog, fn, recv=None, rule='T14.default', model=N
         for p in paths:
             given = None
             for t, truth, o in tests_on(w, p):
-                t2 = cmp_text(o.node, param) if isinstance(o.node, ast.AST) else t
-                e, neg = strip_not(o.node) if isinstance(o.node, ast.AST) else (None, False)
+                src = o.node
+                if isinstance(src, ast.Name):           # a named condition (`no_default = default is SENTINEL`) stands for its value
+                    src = w.expand(o.val)
+                e, neg = strip_not(src) if isinstance(src, ast.AST) else (None, False)
                 tt = cmp_text(e, param) if e is not None else t
                 tr = (o.info != neg)
                 if tt == '%s is %s' % (param, sent):
@@ -874,3 +876,37 @@ def check_not_memoised(ctx, fns, rule='T20.nocache'):
         ctx.ob(rule, f.fq, 'every call returns its own fresh result (the function is not memoised: a cached list would be shared between '
                'callers)', bad is None, loc=f.loc if bad is None else '%s:%d' % (f.module.relpath, bad.lineno),
                detail=txt(bad)[:80] if bad is not None else '')
+
+
+def check_sources_in_order(ctx, up, rule='T9.srcorder', what='update()'):
+    """A bulk operation feeds its sources as they come: neither the positional source nor the keyword items pass through a
+    re-keying or re-ordering constructor (dict / set / frozenset / sorted / reversed / OrderedDict / Counter) on their way to
+    the stores: such a copy collapses repeated keys (a count or a recency refresh is lost) or merges two sources by replacement."""
+    kw = up.node.args.kwarg.arg if up.node.args.kwarg else None
+    params = [p for p in up.params if p not in ('self', 'cls')]
+    srcs = set(params[:1]) | ({kw} if kw else set())
+    bad = None
+    for c in ast.walk(up.node):
+        if isinstance(c, ast.Call) and (call_name(c) or '').split('.')[-1] in ('dict', 'set', 'frozenset', 'sorted', 'reversed', 'OrderedDict',
+                                                                               'Counter'):
+            fed = list(c.args) + [k.value for k in c.keywords]
+            if any(isinstance(x, ast.Name) and x.id in srcs for a in fed for x in ast.walk(a)):
+                bad = bad or c
+    ctx.ob(rule, up.fq, 'the sources of %s reach the stores in their own order, repeats included (no dict()/set()/sorted() copy in '
+           'between)' % what, bad is None, loc=up.loc if bad is None else '%s:%d' % (up.module.relpath, bad.lineno),
+           detail=txt(bad) if bad is not None else '')
+
+
+def check_no_counted_lookup(ctx, fn, rule='T8.eq', what='comparison'):
+    """An observer (`__eq__`, `__ne__`, `__contains__`, ...) does not read the receiver through the instrumented lookup
+    `self[k]` / `self.get(k)` / `self.setdefault`: those count hits and misses and (LRU) refresh recency."""
+    bad = None
+    for n in ast.walk(fn.node):
+        if isinstance(n, ast.Subscript) and isinstance(n.value, ast.Name) and n.value.id == 'self' and isinstance(n.ctx, ast.Load):
+            bad = bad or n
+        if isinstance(n, ast.Call) and isinstance(n.func, ast.Attribute) and isinstance(n.func.value, ast.Name) and n.func.value.id == 'self' \
+                and n.func.attr in ('get', 'setdefault', '__getitem__'):
+            bad = bad or n
+    ctx.ob(rule, fn.fq, 'the %s does not read the receiver through the counted lookup (self[k] / self.get(k)): a read-only operation '
+           'leaves the counters and the recency order alone' % what, bad is None,
+           loc=fn.loc if bad is None else '%s:%d' % (fn.module.relpath, bad.lineno), detail=txt(bad) if bad is not None else '')
